@@ -73,7 +73,8 @@ def schema_term() -> str:
             items.append(f"({ATTR[a]}, {kind})")
         fs.append(f"({CLS[c]}, [{'; '.join(items)}])")
     sub = [f"({CLS[c]}, {CLS[a]})" for c in CLS for a in ancestors(c)]
-    return "{| sc_fields := [" + "; ".join(fs) + "]; sc_sub := [" + "; ".join(sub) + "] |}"
+    enums = [f"({CLS[c]}, {ATTR[a]})" for c, fields in FIELDS.items() for a, k in fields.items() if k == "enum"]
+    return ("{| sc_fields := [" + "; ".join(fs) + "]; sc_sub := [" + "; ".join(sub) + "]; sc_enums := [" + "; ".join(enums) + "] |}")
 
 
 # ------------------------------------------------------------------ worlds
@@ -482,7 +483,7 @@ def gen_query(rng: core.Rng, spec: List[dict], mode: str) -> dict:
         return rng.randint(0, 3) if k == "int" else rng.choice(STRS)
 
     def ops_for(k):
-        # Enum members have no order in Python: ordering them is generated only outside the F07 mode (open finding C07-o)
+        # Enum members have no order in Python: ordering them is generated only outside the F07 mode (must be rejected: was C07-o)
         return ["==", "!="] if k == "enum" and not (wild and rng.chance(0.3)) else list(OPS)
 
     def atom():
@@ -609,7 +610,7 @@ def sweep_queries(full: bool) -> List[dict]:
 ALL_BITS = {1: "K_othervar", 2: "K_null", 4: "K_relop", 16: "K_strop", 32: "K_varoperand", 64: "K_noneorder",
             128: "K_strtruth", 256: "K_eqjoin_dropped", 512: "K_valueeq", 1024: "K_or_join", 2048: "K_setof",
             4096: "K_setlit", 8192: "K_namedvar", 16384: "K_enumorder"}
-OPEN_BITS = {2: "K_null", 512: "K_valueeq", 16384: "K_enumorder"}
+OPEN_BITS = {2: "K_null", 512: "K_valueeq"}
 KNOWN_BITS = OPEN_BITS
 
 
